@@ -59,7 +59,7 @@ DataCmds ==
   \cup {[op |-> "set-safe", k |-> k, v |-> "w2", ver |-> 5] : k \in Keys}
   \cup {[op |-> "increment", k |-> k, n |-> 2] : k \in Keys}
   \cup {[op |-> "resolve", k |-> k, v |-> "rv", ver |-> 3, opid |-> 77, d |-> "d"] : k \in Keys}
-  \cup {[op |-> "keys", p |-> p] : p \in {"*", "a*", "$$*", "$$", "*$$s"}}
+  \cup {[op |-> "keys", p |-> p] : p \in {"*", "a*", "$$*", "$$", "*$$s", "$*", "*$*", "$", "*s", "**"}}
   \cup {[op |-> "unwatch-all"], [op |-> "arbiter"]}
 
 AdminCmds ==
